@@ -2,6 +2,7 @@ use crate::report::Report;
 use crate::Cfg;
 use serde_json::Value;
 
+pub mod c03;
 pub mod c08;
 pub mod c09;
 pub mod c13;
@@ -9,6 +10,7 @@ pub mod c14;
 
 pub fn run(cfg: &Cfg) -> Option<Report> {
     Some(match cfg.prop.as_str() {
+        "C03" => c03::run(cfg),
         "C08" => c08::run(cfg),
         "C09" => c09::run(cfg),
         "C13" => c13::run(cfg),
@@ -19,6 +21,7 @@ pub fn run(cfg: &Cfg) -> Option<Report> {
 
 pub fn replay(cfg: &Cfg, case: &Value) -> Option<Report> {
     Some(match cfg.prop.as_str() {
+        "C03" => c03::replay(cfg, case),
         "C08" => c08::replay(cfg, case),
         "C09" => c09::replay(cfg, case),
         "C13" => c13::replay(cfg, case),
